@@ -52,6 +52,7 @@ class A2:
         self.release_prims = {s["body"].did for s in self.sites if s["obj"] == "refcount" and s["method"] == "fetch_sub"}
         self.inc_sites = {(s["body"].did, s["bb"]) for s in self.sites if s["obj"] == "refcount" and s["method"] == "fetch_add"}
         self.summ = {}
+        self.ret_variants = {}      # did -> {event vector: set of returned variants ("Some", "None", "Ok", "Err", "true", "false", None = unknown)}
         self.path_cache = {}
 
     def is_cb(self, t):
@@ -271,6 +272,7 @@ class A2:
             raise RuleError("path explosion in %s" % b.id)
         bev = {}
         vecs = {}
+        rvs = {}
         for path in paths:
             cur = [Counter()]
             for bi in path:
@@ -281,6 +283,15 @@ class A2:
                     c.update(ev)
                 for (cb, args) in calls:
                     sub = self.summary(cb, stack + (b.did,))
+                    # a helper that reports what it did through Option / Result / bool (`take_if_unique() -> Option<Vec>`): the arm the
+                    # caller takes on this path selects the helper's paths that return that variant
+                    tv = self.ret_variants.get(cb.did) or {}
+                    if len(sub) > 1 and tv:
+                        arm = taken_variant(b, path, bi)
+                        if arm is not None:
+                            sel = {sv: pth for sv, pth in sub.items() if not tv.get(sv) or None in tv[sv] or arm in tv[sv]}
+                            if sel:
+                                sub = sel
                     nxt = []
                     for c in cur:
                         for sv in sub:
@@ -313,12 +324,83 @@ class A2:
                             cur.append(c)
                     if len(cur) > MAX_VECTORS:
                         raise RuleError("vector explosion in %s" % b.id)
+            rv_ = ret_variant(b, path)
             for c in cur:
                 f = frozenset((k, n) for k, n in c.items() if n and k not in ("indirect", "cb_new"))
                 vecs.setdefault(f, path)
+                rvs.setdefault(f, set()).add(rv_)
         self.summ[b.did] = vecs
+        self.ret_variants[b.did] = rvs
         # closures: a closure passed to with_mut runs exactly once in the callee
         return vecs
+
+
+def ret_variant(b, path):
+    """the variant / bool constant a path returns, when the last assignment to the return place on the path says so"""
+    for bi in reversed(path):
+        blk = b.blocks[bi]
+        t = blk["term"]
+        if t["k"] == "call" and isinstance(t.get("dest"), dict) and t["dest"]["l"] == 0 and not t["dest"]["p"]:
+            return None
+        for s in reversed(blk["stmts"]):
+            if s["k"] != "assign" or s["pl"]["l"] != 0:
+                continue
+            if s["pl"]["p"]:
+                return None
+            rv = s["rv"]
+            if rv["k"] == "agg" and rv.get("variant"):
+                return str(rv["variant"])
+            if rv["k"] == "use" and rv["op"]["k"] == "const" and b.locals[0]["ty"] == "bool":
+                v = rv["op"].get("val", rv["op"].get("v"))
+                return {"true": "true", "false": "false", 1: "true", 0: "false", True: "true", False: "false"}.get(v)
+            return None
+    return None
+
+
+VARIANT_OF = {"core::option::Option": {0: "None", 1: "Some"}, "core::result::Result": {0: "Ok", 1: "Err"}}
+
+
+def taken_variant(b, path, bi):
+    """the call in block `bi` returns Option / Result / bool into a local; which variant does the rest of `path` assume? None = not examined"""
+    t = b.blocks[bi]["term"]
+    d = t.get("dest")
+    if not isinstance(d, dict) or d["p"]:
+        return None
+    ty = b.locals[d["l"]]["ty"]
+    names = VARIANT_OF.get(ty.split("<")[0])
+    if names is None and ty != "bool":
+        return None
+    cand = {d["l"]}
+    i0 = path.index(bi)
+    for j in range(i0 + 1, len(path)):
+        blk = b.blocks[path[j]]
+        dl = None
+        for s in blk["stmts"]:
+            if s["k"] != "assign":
+                continue
+            rv = s["rv"]
+            if rv["k"] == "use" and rv["op"]["k"] in ("move", "copy") and not rv["op"]["pl"]["p"] and rv["op"]["pl"]["l"] in cand and not s["pl"]["p"]:
+                cand.add(s["pl"]["l"])
+            elif rv["k"] == "discr" and not rv["pl"]["p"] and rv["pl"]["l"] in cand and not s["pl"]["p"]:
+                dl = s["pl"]["l"]
+            elif not s["pl"]["p"] and s["pl"]["l"] in cand:
+                cand.discard(s["pl"]["l"])
+        tt = blk["term"]
+        if tt["k"] == "switch" and j + 1 < len(path) and tt["discr"]["k"] in ("move", "copy") and not tt["discr"]["pl"]["p"]:
+            l = tt["discr"]["pl"]["l"]
+            vals = [v for v, _ in tt["targets"]]
+            hit = [v for v, dst in tt["targets"] if dst == path[j + 1]]
+            if (dl is not None and l == dl) or (ty == "bool" and l in cand):
+                if hit and path[j + 1] != tt["otherwise"]:
+                    v = hit[0]
+                elif len(vals) == 1 and vals[0] in (0, 1):
+                    v = 1 - vals[0]
+                else:
+                    return None
+                if ty == "bool":
+                    return "true" if v else "false"
+                return names.get(v)
+    return None
 
 
 def vec_str(v):
